@@ -266,3 +266,117 @@ class PEval:
                 continue
             raise NotClosedForm("statement " + str(k))
         return None
+
+
+class Opaque:
+    """value of a local whose initialiser is not a closed form (a pointer into a container, ...)"""
+    def __repr__(self):
+        return "<opaque>"
+
+
+OPAQUE = Opaque()
+
+
+class ArrayPEval(PEval):
+    """PEval with local arrays: element reads / writes of local std::vector or C arrays with concrete indices, a hook that maps
+    selected expressions to symbols (e.g. cache[k][p[k]] -> V_k) and bindings for data members.  Used to fold loop nests whose
+    trip counts are concrete (num_dimensions = 1..4) into closed forms."""
+
+    def __init__(self, db, hook=None, members=None, max_depth=8):
+        super().__init__(db, max_depth)
+        self.hook = hook
+        self.members = members or {}
+
+    @staticmethod
+    def _element(n):
+        """(base DeclRefExpr, index expr) for v[i] on a local vector / array / pointer"""
+        n = strip(n)
+        if n is None:
+            return None
+        if n.get("k") == "ArraySubscriptExpr":
+            b = strip(n["c"][0])
+            if b is not None and b.get("k") == "DeclRefExpr" and "did" in b:
+                return b, n["c"][1]
+        if n.get("k") == "CXXOperatorCallExpr" and n.get("op") == "[]":
+            ch = [c for c in n.get("c", []) if isinstance(c, dict)]
+            b = strip(ch[-2])
+            if b is not None and b.get("k") == "DeclRefExpr" and "did" in b:
+                return b, ch[-1]
+        return None
+
+    def resolver(self, env, fn, depth):
+        base = super().resolver(env, fn, depth)
+
+        def res(n):
+            if self.hook is not None:
+                v = self.hook(n, lambda e: self.expr(e, env, fn, depth))
+                if v is not None:
+                    return v
+            if n.get("k") == "MemberExpr" and n.get("field") in self.members:
+                return self.members[n["field"]]
+            el = self._element(n)
+            if el is not None and isinstance(env.get(el[0]["did"]), dict):
+                i = self.expr(el[1], env, fn, depth)
+                if not getattr(i, "is_Integer", False):
+                    raise NotClosedForm("symbolic array index")
+                arr = env[el[0]["did"]]
+                if int(i) not in arr:
+                    raise NotClosedForm("read of an unset array element %s[%d]" % (el[0].get("var"), int(i)))
+                return arr[int(i)]
+            if n.get("k") == "DeclRefExpr" and env.get(n.get("did")) is OPAQUE:
+                raise NotClosedForm("use of opaque local " + str(n.get("var")))
+            return base(n)
+        return res
+
+    def stmts(self, lst, env, fn, depth):
+        out = []
+        for st in lst:
+            if st is None:
+                continue
+            k = st.get("k")
+            if k == "DeclStmt":
+                handled = True
+                for d in st.get("c", []):
+                    t = d.get("t", "")
+                    if (t.startswith("std::vector<") and "std::vector<std::vector" not in t) or t.endswith("]"):
+                        env[d["did"]] = {}          # a local array, elements are set by the code
+                    elif d.get("c"):
+                        try:
+                            env[d["did"]] = self.expr(d["c"][0], env, fn, depth)
+                        except NotClosedForm:
+                            env[d["did"]] = OPAQUE
+                if handled:
+                    continue
+            if k in ("BinaryOperator", "CompoundAssignOperator") and st.get("op") in ("=", "*=", "+=", "-=", "/="):
+                el = self._element(st["c"][0])
+                if el is not None and isinstance(env.get(el[0]["did"]), dict):
+                    i = self.expr(el[1], env, fn, depth)
+                    if not getattr(i, "is_Integer", False):
+                        raise NotClosedForm("symbolic array index in a write")
+                    r = self.expr(st["c"][1], env, fn, depth)
+                    arr = env[el[0]["did"]]
+                    op = st["op"]
+                    if op == "=":
+                        arr[int(i)] = r
+                    else:
+                        if int(i) not in arr:
+                            raise NotClosedForm("update of an unset array element")
+                        cur = arr[int(i)]
+                        arr[int(i)] = cur * r if op == "*=" else cur + r if op == "+=" else cur - r if op == "-=" else cur / r
+                    continue
+            if k in ("BinaryOperator", "CompoundAssignOperator") and st.get("op") in ("=", "*=", "+=", "-=", "/=", "%="):
+                lhs = strip(st["c"][0])
+                if lhs is not None and lhs.get("k") == "DeclRefExpr" and env.get(lhs.get("did")) is OPAQUE:
+                    continue        # bookkeeping on an opaque scalar (running index into a container) stays opaque
+            try:
+                r = super().stmts([st], env, fn, depth)
+            except NotClosedForm:
+                # a scalar that cannot be folded (support flags, running offsets) becomes opaque; array elements never do
+                if k in ("BinaryOperator", "CompoundAssignOperator") and strip(st["c"][0]) is not None and strip(st["c"][0]).get("k") == "DeclRefExpr" \
+                        and not isinstance(env.get(strip(st["c"][0]).get("did")), dict):
+                    env[strip(st["c"][0])["did"]] = OPAQUE
+                    continue
+                raise
+            if r is not None:
+                return r
+        return None
